@@ -34,8 +34,10 @@ claim("C15",
       "Decides that no RuntimeError (limit errors, solver failures) can escape between the first edge of a batch and the "
       "node's finalisation, that limit errors are raised before any irreversible heap effect, that every return under a "
       "limit test returns False with the pending node known unexpanded, that abandoned work clears the returned flag, "
-      "that failed candidate searches never justify an 'attractor-free' mark, and that a truncated successor list cannot "
-      "reach child creation.",
+      "that failed candidate searches never justify an 'attractor-free' mark, that a truncated successor list cannot "
+      "reach child creation or an expanded mark, that a node is marked expanded without enumeration only when its space "
+      "fixes every variable, and that no handler absorbs a RuntimeError (it raises again, or is one of four reviewed "
+      "handlers that turn the failure into an answer which claims nothing).",
       "Exceptions other than RuntimeError (KeyError from API misuse, assertions) are outside the rule; equality of a "
       "resumed run with an uninterrupted one as values is not decided (follows from C04 + C19).",
       "DESIGN.md §3 C15")
@@ -177,7 +179,9 @@ claim("C12",
       "Decides that returned sets are the closures transferred from the very reduced graph they were computed on and "
       "restricted to the node space, that seeds and sets are recorded pairwise in one order and neither list is re-ordered "
       "on its own afterwards, that sets are recomputed from "
-      "the node's own seeds, and that the reachability test returns only after saturating every variable that has an enabled step.",
+      "the node's own seeds in the order given, that the reachability test returns only after saturating every variable that has "
+      "an enabled step, that every growth of the reach or avoid set re-arms its fixpoint loop, and that a forward step which "
+      "is possible but declined is remembered and taken later.",
       "Equality with the true attractor relies on AEON; agreement of the fallback as sets is not decided.",
       "DESIGN.md §3 C12")
 
@@ -204,7 +208,8 @@ claim("C17",
 claim("C19",
       "order-taint analysis of set iteration (commutativity of loop bodies, interprocedural flow into the canonicalising "
       "constructor), canonical-order rules for id-assigning loops, constant-seed and shared-state rules",
-      "Decides that no hash-seed dependent iteration order, unseeded randomness, module-level or default-argument shared "
+      "Decides that no hash-seed dependent iteration order, unseeded randomness, module-level, class-level, closure-held "
+      "(memo tables behind decorators) or default-argument shared "
       "state or shared configuration object can reach node ids, seeds or interventions, that ids are assigned in "
       "canonical (sorted) orders, and that the canonical sorts are total (no key that leaves ties in arrival order).",
       "clingo and AEON are assumed deterministic for identical call sequences; dict insertion order is not treated as a result.",
